@@ -101,6 +101,12 @@ def composition(r):
             b["additionalItems"] = r.choice([False, {"type": "string"}])
         if r.random() < 0.8:
             b["minItems"] = b["maxItems"] = n2
+        if r.random() < 0.35:
+            # ... or against an ordinary array whose single item schema admits every position
+            a = {"type": "array", "items": r.choice([{"type": ["string", "integer", "boolean"]}, {}, {"type": "integer"}])}
+            if "additionalItems" not in b and r.random() < 0.6:
+                b["additionalItems"] = False
+            return "tuple+items", [a, b]
         return "tuples", [a, b]
     if k < 0.9:
         return "arrays", [{"type": "array", "items": obj_branch(r, r.sample(PROPS, 2))},
